@@ -32,6 +32,7 @@ func (P *Program) nestedByValue() map[types.Type]bool {
 	}
 	out := map[types.Type]bool{}
 	P.arrayElems = map[string]bool{}
+	P.elemTypes = map[string]types.Type{}
 	seen := map[types.Type]bool{}
 	var walk func(t types.Type, inside bool)
 	walk = func(t types.Type, inside bool) {
@@ -55,8 +56,10 @@ func (P *Program) nestedByValue() map[types.Type]bool {
 			}
 		case *types.Array:
 			P.arrayElems[types.TypeString(u.Elem(), nil)] = true
+			P.elemTypes[types.TypeString(u.Elem(), nil)] = u.Elem()
 			walk(u.Elem(), true)
 		case *types.Slice:
+			P.elemTypes[types.TypeString(u.Elem(), nil)] = u.Elem()
 			walk(u.Elem(), true)
 		case *types.Pointer:
 			walk(u.Elem(), false)
@@ -79,6 +82,11 @@ func (P *Program) nestedByValue() map[types.Type]bool {
 		for _, n := range sc.Names() {
 			if tn, ok := sc.Lookup(n).(*types.TypeName); ok {
 				walk(tn.Type(), false)
+				if nt, isN := tn.Type().(*types.Named); isN && nt.TypeArgs().Len() == 0 && nt.TypeParams().Len() == 0 {
+					if _, isS := nt.Underlying().(*types.Struct); isS {
+						P.namedStructs = append(P.namedStructs, nt)
+					}
+				}
 			}
 		}
 	}
